@@ -92,8 +92,11 @@ func Run(j *job.Job, s *job.Sink) {
 		var all []*ident
 		namePool := []string{"a", "b", "c", "d", "e", "f", "g", "h"}
 		nm := 1 + r.Intn(4)
+		nameOf := r.Perm(nm)
 		for i := 0; i < nm; i++ {
-			m := &mod{name: fmt.Sprintf("m%d", i), prefix: fmt.Sprintf("p%d", i), imports: map[*mod]string{}}
+			// module names are drawn so that name order and dependency order are unrelated
+			// (whatever sorts or iterates by name must not depend on "importers come later")
+			m := &mod{name: fmt.Sprintf("m%d", nameOf[i]), prefix: fmt.Sprintf("p%d", i), imports: map[*mod]string{}}
 			if r.Intn(3) == 0 {
 				m.prefix = "same" // several modules may declare the same prefix for themselves
 			}
@@ -185,12 +188,82 @@ func Run(j *job.Job, s *job.Sink) {
 			mods = append(mods, m)
 			files = append(files, fam...)
 		}
+		// Error side, one graph in six: a derivation cycle (an identity gets an extra base
+		// that is itself or one of its own descendants in the same module family, so the
+		// name is visible without a new import) or a base that nothing defines. Process
+		// must report it, whatever else is in the set.
+		wantErr := ""
+		if r.Intn(6) == 0 && len(all) > 0 {
+			switch r.Intn(4) {
+			case 0, 1:
+				kidsNow := map[*ident][]*ident{}
+				for _, id := range all {
+					for _, b := range id.bases {
+						kidsNow[b] = append(kidsNow[b], id)
+					}
+				}
+				a := all[r.Intn(len(all))]
+				// candidates: a itself and its descendants in a's own module family
+				cands := []*ident{a}
+				seen := map[*ident]bool{a: true}
+				for q := []*ident{a}; len(q) > 0; q = q[1:] {
+					for _, k := range kidsNow[q[0]] {
+						if !seen[k] {
+							seen[k] = true
+							q = append(q, k)
+							if k.mod == a.mod {
+								cands = append(cands, k)
+							}
+						}
+					}
+				}
+				x := cands[r.Intn(len(cands))]
+				a.bq = append(a.bq, x.name)
+				wantErr = "cycle"
+			case 2:
+				a := all[r.Intn(len(all))]
+				a.bq = append(a.bq, "nosuchidentity")
+				wantErr = "dangling-base"
+			default:
+				a := all[r.Intn(len(all))]
+				q := "zzq:nosuch"
+				for _, p := range a.file.imports {
+					q = p + ":nosuchidentity"
+				}
+				a.bq = append(a.bq, q)
+				wantErr = "dangling-prefixed-base"
+			}
+		}
 		var cs []map[string]string
 		for _, f := range files {
 			cs = append(cs, map[string]string{"name": f.name + ".yang", "text": f.text()})
 		}
 		s.Current(c, cs)
 		s.Count("graphs", 1)
+		if wantErr != "" {
+			s.Count("error_side_graphs", 1)
+			s.Count("error_side:"+wantErr, 1)
+			for rep := 0; rep < 3; rep++ {
+				perm := r.Perm(len(files))
+				func() {
+					defer func() {
+						if rec := recover(); rec != nil {
+							s.Violation(c, j.CaseID(c), "C11.closure", "panic", fmt.Sprint(rec), cs, nil)
+						}
+					}()
+					ms := yang.NewModules()
+					for _, i := range perm {
+						if err := ms.Parse(files[i].text(), files[i].name+".yang"); err != nil {
+							return
+						}
+					}
+					if errs := ms.Process(); len(errs) == 0 {
+						s.Violation(c, j.CaseID(c), "C11.closure", "unreported:"+wantErr, "Process reported no error for a graph with a "+wantErr, cs, nil)
+					}
+				}()
+			}
+			continue
+		}
 		kids := map[*ident][]*ident{}
 		for _, id := range all {
 			for _, b := range id.bases {
